@@ -239,7 +239,9 @@ class RelaxationTensor(SuperOperator, Secular, Saveable):
     
     
     def __add__(self, other):
-        self._data += other._data
+        # both tensors are taken in the basis which is current; their raw
+        # storages can be representations in different bases
+        self.data = self.data + other.data
         return self
 
 
